@@ -135,13 +135,15 @@ def parse_and_transform(chk, repo, rule, modname, struct_name, transform_name, o
 def record_type_dispatch(chk, repo, rule):
     """sar_image.io: record type 10 -> signal data record, 11 -> processed data record; preamble is the first 12 bytes"""
     io = repo.module("ceos_alos2.sar_image.io")
+    from ..interproc import dict_entries
     e = io.assigns.get("record_types")
-    if not e or not isinstance(e[-1], ast.Dict):
+    entries = dict_entries(repo, io, e[-1]) if e else None
+    if not entries:
         raise AnalysisError("anchor vanished: sar_image.io.record_types")
     got = {}
-    for k, v in zip(e[-1].keys, e[-1].values):
+    for k, v in entries.items():
         r = repo.resolve_expr(io, v)
-        got[k.value if isinstance(k, ast.Constant) else norm(k)] = (r.mod.name, r.name) if r.kind == "value" else norm(v)
+        got[k] = (r.mod.name, r.name) if r.kind == "value" else norm(v)
     want = {10: ("ceos_alos2.sar_image.signal_data", "signal_data_record"), 11: ("ceos_alos2.sar_image.processed_data", "processed_data_record")}
     chk.require(got == want, rule, f"{io.relpath}:record_types", "record type 10 -> signal_data_record, 11 -> processed_data_record",
                 f"record type dispatch is {got}", key="record_types", sample={"table": {k: v[1] if isinstance(v, tuple) else v for k, v in got.items()}})
@@ -270,56 +272,70 @@ def declared_multiplicities(chk, L, rule, keys):
 
 
 
+def parse_chunk_run(repo, code, nbytes, L=24):
+    """parse_chunk evaluated on one model block of ``nbytes`` bytes whose preamble says record type ``code`` (record length L):
+    -> (("ok", records) | ("raise", classes, what), what the stubs saw)"""
+    from collections import OrderedDict
+    from ..shapes import Const, DictS, Fn, Interp, ListLit, Obj, ShapeError, _Raise
+    io = repo.module("ceos_alos2.sar_image.io")
+    where = f"{io.relpath}:parse_chunk"
+    I = Interp(repo)
+    sc = I.module_scope(io)
+    seen = {}
+
+    def pre(I_, a, kw):
+        b = a[0]
+        seen["preamble_from"] = b.v if isinstance(b, Const) else None
+        if not isinstance(b, Const) or len(b.v) < 12:
+            raise _Raise("StreamError: preamble", ["StreamError", "ConstructError", "Exception", "BaseException", "object"])
+        return Obj("Container", OrderedDict(record_type=Const(code)))
+    sc.vars["record_preamble"] = Obj("Struct", OrderedDict(parse=Fn("py", impl=pre, name="parse")))
+
+    def struct(tag):
+        def rep(I_, a, kw):
+            n = a[0].v if isinstance(a[0], Const) else None
+
+            def parse(I2, a2, k2):
+                seen["parsed"] = (tag, n, len(a2[0].v) if isinstance(a2[0], Const) else None)
+                return ListLit([Const((tag, i)) for i in range(n or 0)])
+            return Obj("Struct", OrderedDict(parse=Fn("py", impl=parse, name="parse")))
+        return Obj("Struct", OrderedDict(__getitem__=Fn("py", impl=rep, name="__getitem__")))
+    # the table itself is the repository's (however it is built): only the line-record structs it names are replaced
+    structs = 0
+    for name in list(io.imports) + list(io.assigns):
+        r = repo.resolve_module_name(io, name)
+        if r.kind == "value" and r.mod is not io and r.mod.name in ("ceos_alos2.sar_image.signal_data", "ceos_alos2.sar_image.processed_data") and r.name.endswith("_record"):
+            sc.vars[name] = struct(r.name)
+            structs += 1
+    if structs < 2:
+        raise AnalysisError("anchor vanished: the line-record structs imported by sar_image.io")
+    try:
+        table = I.resolve_global(io, "record_types")
+    except (ShapeError, _Raise) as ex:
+        raise AnalysisError(f"sar_image.io.record_types cannot be evaluated: {ex}")
+    if not isinstance(table, DictS) or not table.items:
+        raise AnalysisError(f"anchor vanished: sar_image.io.record_types is {table!r:.60}")
+    block = bytes(range(256))[:nbytes] if nbytes <= 256 else bytes(nbytes)
+    try:
+        out = I.call(I.lookup("parse_chunk", sc), [Const(block), Const(L)], {})
+    except _Raise as ex:
+        return ("raise", ex.classes, ex.what), seen
+    except ShapeError as ex:
+        raise AnalysisError(f"{where}: cannot be evaluated on a model block: {ex}")
+    return ("ok", [x.v for x in out.elts] if isinstance(out, ListLit) else repr(out)), seen
+
+
 def record_dispatch_eval(chk, repo, rule):
     """parse_chunk evaluated on model blocks (construct replaced by stubs that follow its contract, see vlib/tracemodel.py): the
     record type read from the preamble selects the struct (10 -> signal, 11 -> processed), the struct is repeated
     len(block) / record length times and parses the whole block; an unknown type and a block that is not a whole number
     of records raise ValueError"""
-    from collections import OrderedDict
-    from ..shapes import Const, DictS, Fn, Interp, ListLit, Obj, ShapeError, _Raise
     io = repo.module("ceos_alos2.sar_image.io")
     where = f"{io.relpath}:parse_chunk"
     L = 24
 
     def run(code, nbytes):
-        I = Interp(repo)
-        sc = I.module_scope(io)
-        seen = {}
-
-        def pre(I_, a, kw):
-            b = a[0]
-            seen["preamble_from"] = b.v if isinstance(b, Const) else None
-            if not isinstance(b, Const) or len(b.v) < 12:
-                raise _Raise("StreamError: preamble", ["StreamError", "ConstructError", "Exception", "BaseException", "object"])
-            return Obj("Container", OrderedDict(record_type=Const(code)))
-        sc.vars["record_preamble"] = Obj("Struct", OrderedDict(parse=Fn("py", impl=pre, name="parse")))
-
-        def struct(tag):
-            def rep(I_, a, kw):
-                n = a[0].v if isinstance(a[0], Const) else None
-
-                def parse(I2, a2, k2):
-                    seen["parsed"] = (tag, n, len(a2[0].v) if isinstance(a2[0], Const) else None)
-                    return ListLit([Const((tag, i)) for i in range(n or 0)])
-                return Obj("Struct", OrderedDict(parse=Fn("py", impl=parse, name="parse")))
-            return Obj("Struct", OrderedDict(__getitem__=Fn("py", impl=rep, name="__getitem__")))
-        # the table itself is the repository's literal: only the structs it names are replaced
-        e = io.assigns.get("record_types")
-        if not e or not isinstance(e[-1], ast.Dict):
-            raise AnalysisError("anchor vanished: sar_image.io.record_types")
-        table = OrderedDict()
-        for k, v in zip(e[-1].keys, e[-1].values):
-            r = repo.resolve_expr(io, v)
-            table[k.value if isinstance(k, ast.Constant) else norm(k)] = struct(r.name if r.kind == "value" else norm(v))
-        sc.vars["record_types"] = DictS(table)
-        block = bytes(range(256))[:nbytes] if nbytes <= 256 else bytes(nbytes)
-        try:
-            out = I.call(I.lookup("parse_chunk", sc), [Const(block), Const(L)], {})
-        except _Raise as ex:
-            return ("raise", ex.classes, ex.what), seen
-        except ShapeError as ex:
-            raise AnalysisError(f"{where}: cannot be evaluated on a model block: {ex}")
-        return ("ok", [x.v for x in out.elts] if isinstance(out, ListLit) else repr(out)), seen
+        return parse_chunk_run(repo, code, nbytes, L)
 
     for code, want in ((10, "signal_data_record"), (11, "processed_data_record")):
         for n in (1, 3):
